@@ -3,6 +3,7 @@ package world
 import (
 	"encoding/binary"
 	"net/netip"
+	"time"
 
 	"github.com/jwhited/corebgp"
 
@@ -57,9 +58,28 @@ func IsMarker(b []byte) (int, bool) {
 	return 0, false
 }
 
+// SlowCallback, when Kind is set, makes the N-th invocation (counted over all plugins of the
+// execution, from 1; 0 = every invocation) of that callback kind take D of virtual time: the cheap way
+// to reach the states in which one FSM is far behind the other (scenario twins, props.slowTwin).
+var SlowCallback struct {
+	Kind string
+	N    int
+	D    time.Duration
+	seen int
+}
+
+// ResetSlowCallback restarts the invocation count (start of an execution).
+func ResetSlowCallback() { SlowCallback.seen = 0 }
+
 func (p *Plugin) yield(site string) {
 	if !p.NoYield {
 		vrt.Yield(site)
+	}
+	if k := SlowCallback.Kind; k != "" && site == "plugin."+k {
+		SlowCallback.seen++
+		if SlowCallback.N == 0 || SlowCallback.N == SlowCallback.seen {
+			vrt.Sleep(SlowCallback.D)
+		}
 	}
 }
 
